@@ -290,6 +290,7 @@ type world struct {
 	resetD  func()
 	nbr     *slot
 	tagBuf  [64]byte
+	fresh  func() // gives every wavefront a new register accessor (timing world)
 }
 
 func bgSpecial(si int) (vcc, exec uint64, m0 uint32) {
@@ -891,6 +892,14 @@ func newTimingWorld() *world {
 		s.resolve()
 		w.slots = append(w.slots, s)
 	}
+	// undo / softReset restore the register files directly, behind the back of the register accessors: every
+	// history starts with accessors of its own (built the way ComputeUnit.wrapWG builds them), so that state an
+	// accessor may legitimately keep about its earlier reads cannot leak from one history into the next
+	w.fresh = func() {
+		for _, wf := range twfs {
+			wf.RegAccessor = &cu.CURegFileAccessor{CU: c, WF: wf}
+		}
+	}
 	w.actors = w.slots[:3]
 	w.nbr = w.slots[3]
 	sched := c.Scheduler.(*cu.SchedulerImpl)
@@ -980,6 +989,9 @@ func (w *world) runDetailed(actor *slot, hist []op, trace io.Writer) *finding {
 func (w *world) runDetailedPass(actor *slot, hist []op, trace io.Writer, withReadBack bool) *finding {
 	w.softReset()
 	defer w.softReset()
+	if w.fresh != nil {
+		w.fresh()
+	}
 	mk := func(pos int, sig, msg string) *finding {
 		return &finding{sig: sig, msg: msg, rc: replayCase{World: w.mode, Actor: actor.name, History: append([]op(nil), hist[:pos+1]...)}}
 	}
@@ -1078,6 +1090,9 @@ func historyString(h []op) string {
 // then untrusted: the caller runs the detailed path). outs receives the
 // per-operation outcomes for the cross-mode comparison.
 func (w *world) runFast(actor *slot, hist []op, st *stats, outs *[]outcome, isNew func(uint64) bool) (ok bool) {
+	if w.fresh != nil {
+		w.fresh()
+	}
 	for pos, o := range hist {
 		out := w.apply(actor, o, pos)
 		st.ops++
@@ -1317,6 +1332,49 @@ func main() {
 		histories += done
 		layerInfo = append(layerInfo, map[string]any{"depth": ly.depth, "alphabet": ly.name, "alphabet_size": A, "histories": done, "complete": complete})
 		fmt.Printf("depth %d over the %s alphabet (%d operations): %d histories, complete=%v\n", ly.depth, ly.name, A, done, complete)
+	}
+
+	// read X, write Y, read X again - for every read and every write of the full alphabet: what a read may remember
+	// must not survive a write to any part of it (the cube of depth 3 is thorough-only; this slice of it is cheap)
+	{
+		var reads, writes []op
+		for _, o := range full {
+			switch {
+			case o.Reset:
+			case o.Write:
+				writes = append(writes, o)
+			default:
+				reads = append(reads, o)
+			}
+		}
+		var done int64
+		complete := r.ForEach(len(reads), func(i int) {
+			wk := get()
+			var st stats
+			hist := make([]op, 3)
+			hist[0], hist[2] = reads[i], reads[i]
+			for _, wr := range writes {
+				hist[1] = wr
+				c.runHistory(wk, hist, &st)
+			}
+			atomic.AddInt64(&done, int64(len(writes)))
+			c.totMu.Lock()
+			c.tot.runs += st.runs
+			c.tot.ops += st.ops
+			c.tot.reads += st.reads
+			c.tot.slow += st.slow
+			c.tot.readbacks += st.readbacks
+			c.tot.xcmp += st.xcmp
+			c.tot.xdis += st.xdis
+			c.totMu.Unlock()
+			pool <- wk
+		})
+		if !complete {
+			exhaustive = false
+		}
+		histories += done
+		layerInfo = append(layerInfo, map[string]any{"depth": 3, "alphabet": "read X, write Y, read X over the full alphabet", "alphabet_size": len(reads) * len(writes), "histories": done, "complete": complete})
+		fmt.Printf("read-write-read over the full alphabet (%d reads x %d writes): %d histories, complete=%v\n", len(reads), len(writes), done, complete)
 	}
 
 	// final sweep: every worker's worlds must still equal the background
